@@ -456,7 +456,7 @@ Record local := mkLocal {
 Definition local0 : local := mkLocal 0 None None.
 
 (* shared state: the player state, the locals, and a ghost list of the requests that own a running
-   attempt (admitted, not finished) *)
+   attempt (started, not finished) *)
 Record cst := mkCst { c_st : st; c_loc : nat -> local; c_active : list nat }.
 
 Definition upd (k : nat) (x : local) (f : nat -> local) : nat -> local :=
@@ -540,7 +540,7 @@ Definition start_cst : cst := mkCst start_st (fun _ => local0) [].
 
 (* ---------- step functions for Base/Lin.v: the atomic specification of a request burst ---------- *)
 
-(* A Connect call that was admitted is recorded as two calls (begin, end) carrying the same real-time
+(* A Connect call that was let in is recorded as two calls (begin, end) carrying the same real-time
    interval; a refused call as one. *)
 Inductive lop :=
 | LBegin (k t : nat)
